@@ -334,6 +334,7 @@ def step (st : DState) (line : String) : DState × String :=
       s!"simRegionC={bit (simRegionOK G H st.gtop st.htop true)}",
       s!"wf={bits (wfClauses H)}",
       s!"structured={bits (structuredClauses H st.htop)}",
+      s!"conts={bit (contsOK H)}",
       s!"conserved={bit (conserved G H)}",
       s!"tables={bit (tablesOK H)}",
       s!"ctl={bit (ctlOK H st.htop)}"]
@@ -413,6 +414,9 @@ def step (st : DState) (line : String) : DState × String :=
       let final := rs.foldl (fun g r => (Model.request g r).2) n
       (st, s!"{commaJoin names} {printNg final}")
     | _, _ => (st, "bad-request")
+  | ["RSV", ng, names] => match parseNg ng with
+    | .ok n => (st, printNg ((lst names).foldl (fun g nm => g.reserve nm) n))
+    | .error _ => (st, "bad-request")
   | ["PREFIXOK", reqs] => match parseReqs reqs with
     | .ok rs => (st, bit (Model.prefixesOK rs))
     | .error _ => (st, "bad-request")
